@@ -286,8 +286,12 @@ include hk
 theorem aCreateCtype_cm (found : Option ConsRow) (t : Nat)
     (hf : ∀ cons, found = some cons → ConsOk cu c0 g c cons) (hn : found = none → c.uuid ≠ cu) :
     CM cu c0 g (.txn .createCtype (aCreateCtype ctx c found t k)) :=
-  Commits.txn' _ _ (fun _ _ => .inl
-    (aAfterType_cm { ctx with ctCache := none } c k (fun ctx' h => hk ctx' h) found (some t) hf hn))
+  Commits.txn' _ _ (fun s _ => .inl (by
+    unfold aCreateCtype
+    split
+    · exact Commits.txn' _ _ (fun s' _ => .inl
+        (aAfterType_cm { ctx with ctCache := some s'.ctypes } c k (fun ctx' h => hk ctx' h) found (some t) hf hn))
+    · exact aAfterType_cm { ctx with ctCache := none } c k (fun ctx' h => hk ctx' h) found (some t) hf hn))
 
 theorem aGetCtype_cm (found : Option ConsRow) (t : Nat)
     (hf : ∀ cons, found = some cons → ConsOk cu c0 g c cons) (hn : found = none → c.uuid ≠ cu) :
@@ -342,7 +346,11 @@ theorem aGetConsumer_cm (hmv : ctx.mv ≥ 28) (hreq : ReqOk cu g c) :
 
 theorem aCreateUser_cm (hmv : ctx.mv ≥ 28) (hreq : ReqOk cu g c) :
     CM cu c0 g (.txn .createUser (aCreateUser ctx c k)) :=
-  Commits.txn' _ _ (fun _ _ => .inl (aGetConsumer_cm ctx c k hk hmv hreq))
+  Commits.txn' _ _ (fun s _ => .inl (by
+    unfold aCreateUser
+    split
+    · exact Commits.txn' _ _ (fun _ _ => .inl (aGetConsumer_cm ctx c k hk hmv hreq))
+    · exact aGetConsumer_cm ctx c k hk hmv hreq))
 
 theorem aGetUser_cm (hmv : ctx.mv ≥ 28) (hreq : ReqOk cu g c) :
     CM cu c0 g (.txn .getUser (aGetUser ctx c k)) :=
@@ -354,7 +362,11 @@ theorem aGetUser_cm (hmv : ctx.mv ≥ 28) (hreq : ReqOk cu g c) :
 
 theorem aCreateProject_cm (hmv : ctx.mv ≥ 28) (hreq : ReqOk cu g c) :
     CM cu c0 g (.txn .createProject (aCreateProject ctx c k)) :=
-  Commits.txn' _ _ (fun _ _ => .inl (aGetUser_cm ctx c k hk hmv hreq))
+  Commits.txn' _ _ (fun s _ => .inl (by
+    unfold aCreateProject
+    split
+    · exact Commits.txn' _ _ (fun _ _ => .inl (aGetUser_cm ctx c k hk hmv hreq))
+    · exact aGetUser_cm ctx c k hk hmv hreq))
 
 theorem aGetProject_cm (hmv : ctx.mv ≥ 28) (hreq : ReqOk cu g c) :
     CM cu c0 g (.txn .getProject (aGetProject ctx c k)) :=
